@@ -201,8 +201,18 @@ def run(ctx):
                 lr = outcome(lambda: l.pop(ii)) if r[0] == "ok" else None
                 refused_ok = outcome(lambda: list(l).pop(ii))[0] == "err"
             elif op == "remove":
-                x = good(); r = outcome(lambda: v.remove(x)); line = f"vremove {enc(x)}"
+                x = good()
+                if rng.random() < 0.35:
+                    # searching compares with ==, like a list: 2.0 finds the int 2, True finds 1 and 1.0 (no type filter on the needle)
+                    x = rng.choice([float(rng.randint(0, 3)), rng.randint(0, 3), bool(rng.randint(0, 1)), str(rng.randint(0, 3))])
+                r = outcome(lambda: v.remove(x)); line = f"vremove {enc(x)}"
                 lr = outcome(lambda: l.remove(x)) if r[0] == "ok" else None
+                refused_ok = outcome(lambda: list(l).remove(x))[0] == "err"
+                # the read-only searches, on the same needle
+                for sname, sf in (("index", lambda c: c.index(x)), ("count", lambda c: c.count(x)), ("in", lambda c: x in c)):
+                    sv, sl_ = outcome(sf, v), outcome(sf, l)
+                    if sv[:2] != sl_[:2]:
+                        ctx.violation(what="searching the Vector differs from searching the list", op=sname, needle=repr(x), values=str(list(v)), observed=show(sv), required=show(sl_))
             elif op == "reverse":
                 r = outcome(v.reverse); line = "vreverse"; l.reverse(); lr = ("ok", None)
             else:
